@@ -54,7 +54,35 @@ pub fn oracle_skip(t: &Tables, c: &VmCase, probe: &mut Probe) -> Result<(), Fail
         let recoverable = match outcome {
             Err(p) => fail!(format!("step/panic:{}", panic_key(&p)), "limit {l}: {p}"),
             Ok(Ok(_)) => false,
-            Ok(Err(e)) => e.is_recoverable(),
+            Ok(Err(e)) if e.is_recoverable() => true,
+            Ok(Err(e)) => {
+                // a fatal failure (destination full): the interpreter hands back, with its error, the state the
+                // failing instruction was given - everything else that was still to run included
+                let given_back = e.into_state();
+                let next = c.real(t, l + 1).map_err(|e| Fail::new("setup/state-construction", e))?;
+                match guarded(move || next.run_to_completion()) {
+                    Err(p) => fail!(format!("run/panic:{}", panic_key(&p)), "limit {}: {p}", l + 1),
+                    Ok(Ok(s)) => fail!(
+                        "run/fatal-error-swallowed",
+                        "the element on top of exec after {l} steps fails fatally when performed, but the run under limit {} returned normally with {s:?}",
+                        l + 1
+                    ),
+                    Ok(Err(fe)) => {
+                        let st = fe.into_state();
+                        if !snaps_equal(&snap(&st), &snap(&minus_top)) || !snaps_equal(&snap(&given_back), &snap(&minus_top)) {
+                            fail!(
+                                "run/abort-state-differs-from-state-before-the-instruction",
+                                "the element on top of exec after {l} steps fails fatally; the state carried by the error must be the state it was given (the state after {l} steps minus that element).\nstate before the instruction: {:?}\ncarried by perform's error:   {:?}\ncarried by the run's error:   {:?}",
+                                snap(&minus_top),
+                                snap(&given_back),
+                                snap(&st)
+                            );
+                        }
+                        probe.label("fatal failure inside a run: carried state compared");
+                    }
+                }
+                break;
+            }
         };
         if !recoverable {
             continue;
@@ -350,7 +378,7 @@ pub fn run(ctx: &mut Ctx) {
     if !t.uncovered.is_empty() {
         ctx.inconclusive.push(format!("instruction variants unknown to the reference semantics: {:?}", t.uncovered));
     }
-    ctx.rule = "fault_points: every instruction on boundary-biased generated states; shape_space: for every instruction the complete set of stack shapes (sizes 0..3 on each of the four stacks x slack 0/1 on each, 4096 shapes; values pseudo-random) - exhaustive over shapes; shape_space_lowered_maxima: the same sizes with the maximum of one stack (or of all four) lowered by 1 or 2 below the number of elements it already holds before the instruction is performed (a destination that is over-full); noop_substitution: flat programs in which an instruction that can fail for its values recurs at the same depths - each element that fails recoverably when reached is replaced by an explicit Noop and both programs must end in the same state; skip_semantics: generated programs run under limits L and L+1 around every recoverably failing instruction. non-trivial = the instruction returned an error (fault/shape checks) or a recoverable failure occurred inside the run (skip check); distinct by JSON encoding".into();
+    ctx.rule = "fault_points: every instruction on boundary-biased generated states; shape_space: for every instruction the complete set of stack shapes (sizes 0..3 on each of the four stacks x slack 0/1 on each, 4096 shapes; values pseudo-random) - exhaustive over shapes; shape_space_lowered_maxima: the same sizes with the maximum of one stack (or of all four) lowered by 1 or 2 below the number of elements it already holds before the instruction is performed (a destination that is over-full); noop_substitution: flat programs in which an instruction that can fail for its values recurs at the same depths - each element that fails recoverably when reached is replaced by an explicit Noop and both programs must end in the same state; skip_semantics: generated programs run under limits L and L+1 around every recoverably failing instruction, and around the first fatally failing one (the state carried by the run's error is the state after L steps minus that instruction). non-trivial = the instruction returned an error (fault/shape checks) or a recoverable failure occurred inside the run (skip check); distinct by JSON encoding".into();
     ctx.assumptions.push("'state before the instruction' is the state handed to perform (the interpreter has already removed the instruction from exec)".into());
     let (n_fault, n_skip, shape) = ctx.tier.pick((300_000u32, 20_000u32, QUICK_SHAPE), (6_000_000, 600_000, THOROUGH_SHAPE));
     ctx.run_prop("fault_points", n_fault, || single_step_case(&Tables::build()), |c, p| {
